@@ -55,7 +55,7 @@ pub enum FitOut {
     Ok(Fitted),
     Err(String),
     Panic(mc::PanicInfo),
-    /// only from `fit_watched`: no answer after this many milliseconds of CPU time
+    /// only from `fit_watched`: no answer within the CPU-time budget (milliseconds)
     Hang(u64),
 }
 
@@ -129,9 +129,10 @@ pub fn fit_watched(x: &Mat, y: &[f64], cfg: &Cfg, max_iter: usize, xp: &Mat, cpu
                         None if wall >= 4 * cpu_ms => Some(wall),
                         _ => None,
                     };
-                    if let Some(c) = hang {
+                    if hang.is_some() {
                         *slot = None;
-                        return FitOut::Hang(c);
+                        // (the budget, not the measured value, is reported: messages must replay identically)
+                        return FitOut::Hang(cpu_ms);
                     }
                 }
             }
